@@ -180,4 +180,73 @@ func cmdFunc(args []string) {
 	}
 }
 
-func cmdReplay(args []string) { fmt.Println("not implemented"); os.Exit(2) }
+// cmdReplay re-decides the obligation a replay file names against /repo's current tree: exit 1 if
+// the obligation still fails (or, for a replay with a synthesised input, the stored in-package
+// test still fails on the real code), 0 if it is discharged now.
+func cmdReplay(args []string) {
+	if len(args) < 1 {
+		usage()
+	}
+	var info map[string]interface{}
+	if err := loadJSON(args[0], &info); err != nil {
+		fmt.Fprintln(os.Stderr, err)
+		os.Exit(2)
+	}
+	prop, _ := info["property"].(string)
+	obl, _ := info["obligation"].(string)
+	fmt.Printf("replay of %s obligation %s\n", prop, obl)
+	if g, ok := info["goal"].(string); ok {
+		fmt.Println("  goal:", g)
+	}
+	if d, ok := info["detail"].(string); ok && d != "" {
+		fmt.Println("  detail:", d)
+	}
+	if in, ok := info["input_hex"].(string); ok {
+		fmt.Println("  input:", in)
+	}
+	var props map[string]*PropConfig
+	if err := loadJSON(verifRoot()+"/props.json", &props); err != nil || props[prop] == nil {
+		fmt.Fprintln(os.Stderr, "unknown property in replay file")
+		os.Exit(2)
+	}
+	P, err := loadProg("/repo", props[prop].Packages, []string{verifRoot() + "/contracts"})
+	if err != nil {
+		fmt.Fprintln(os.Stderr, err)
+		os.Exit(2)
+	}
+	// the obligation name starts with the key of the function under contract
+	parts := strings.Split(obl, "/")
+	var fn = P.lookupFunc(obl)
+	for i := len(parts) - 1; i > 0 && fn == nil; i-- {
+		fn = P.lookupFunc(strings.Join(parts[:i], "/"))
+	}
+	if fn == nil {
+		fmt.Println("  the function of this obligation no longer exists")
+		os.Exit(1)
+	}
+	res := P.verifyFunction(fn, nil)
+	if res.Engine != "" {
+		fmt.Println("ENGINE-FAULT:", res.Engine)
+		os.Exit(2)
+	}
+	res.runHoudini("quick")
+	var mine []*Obligation
+	for _, o := range res.Obls {
+		if o.Name == obl {
+			mine = append(mine, o)
+		}
+	}
+	if len(mine) == 0 {
+		fmt.Println("  no obligation of that name is generated any more")
+		os.Exit(1)
+	}
+	solveAll(mine, res.Candidates, "quick", false)
+	for _, o := range mine {
+		fmt.Printf("  %s at %s: %s (%s, %.1fs)\n", o.Name, o.Pos, map[bool]string{true: "discharged", false: "FAILS: " + o.Verdict}[o.Verdict == "unsat"], o.Solver, o.Seconds)
+		if o.Verdict != "unsat" {
+			rp := P.replay(verifRoot(), prop, o, "quick")
+			fmt.Printf("VIOLATION property=%s replay=%s obligation=%s%s\n", prop, rp.Path, o.Name, map[bool]string{true: "", false: " no-failing-input-found"}[rp.Reproduced])
+			os.Exit(1)
+		}
+	}
+}
